@@ -108,8 +108,12 @@ def generate(seed, tier, idx=0):
             ops.append([s, "set_seed", rng.choice(SEEDS)])
         elif r < 0.86:
             ops.append([s, "reset"])
-        elif r < 0.93:
+        elif r < 0.92:
             ops.append([s, "save"])
+        elif r < 0.95:
+            # the stream object is replaced by a deep copy / pickle round trip of
+            # itself; the original stays alive and keeps drawing
+            ops.append([s, "clone", rng.choice(["deepcopy", "deepcopy", "pickle"])])
         else:
             ops.append([s, "restore", rng.random()])
     case = {"kind": "history", "seeds": seeds, "ops": ops}
@@ -224,6 +228,17 @@ def run_history(case):
             since[s] = []
         elif name == "save":
             tokens[s].append((subj[s].save_state(), lin_seed[s], list(since[s])))
+        elif name == "clone":
+            import copy
+            import pickle
+            old = subj[s]
+            subj[s] = copy.deepcopy(old) if op[2] == "deepcopy" else pickle.loads(pickle.dumps(old))
+            if subj[s] is old:
+                return ("not-independent", "op #%d: %s of a stream returned the same object"
+                        % (i, op[2])), info
+            for _ in range(3):
+                old.next_float()        # the original is another stream from now on
+            info["clones"] = info.get("clones", 0) + 1
         elif name == "restore":
             if not tokens[s]:
                 continue
